@@ -46,17 +46,31 @@ def check(an, rep, tier):
             continue
         v = r.result
         ok = v.k == 'tuple' and v.items and len(v.items) == 3
+        bad = v.k == 'tuple' and v.items is not None and len(v.items) != 3
         if ok:
             I, idx, many = v.items
-            ok = (I.k == 'arr' and I.dims is not None and len(I.dims) == 2 and
-                  I.dims[1] is not None and I.dims[1].as_int() == r.d and
-                  idx.k == 'arr' and idx.dims is not None and
-                  idx.dims[0].as_int() == r.d + 1 and
-                  many.k == 'arr' and many.dims is not None and
-                  many.dims[0].as_int() == r.d)
+
+            def _len(a, ax, n_ax):
+                """-> 'ok' / 'bad' / None (not typed) for axis ax == want"""
+                if a.k != 'arr' or a.dims is None:
+                    return None, None
+                if len(a.dims) != n_ax:
+                    return 'bad', None
+                x = a.dims[ax]
+                return ('ok' if x is not None else None), x
+            checks = []
+            for a_, ax_, nax_, want_ in ((I, 1, 2, r.d), (idx, 0, 1, r.d + 1),
+                                         (many, 0, 1, r.d)):
+                s_, x_ = _len(a_, ax_, nax_)
+                if s_ == 'ok':
+                    s_ = 'ok' if x_.as_int() == want_ else (
+                        'bad' if x_.as_int() is not None else None)
+                checks.append(s_)
+            ok = all(c == 'ok' for c in checks)
+            bad = any(c == 'bad' for c in checks)
         rep.add('S-producer', 'sample.sample_tt', 'returns (I[rows,d], '
                 'idx[d+1], idx_many[d]) at d=%d' % r.d,
-                'ok' if ok else 'violation',
+                'ok' if ok else ('violation' if bad else 'unknown'),
                 '' if ok else 'returned %r' % (v,))
     import ast as _ast
     from .. import paths as _paths
@@ -105,15 +119,19 @@ def check(an, rep, tier):
     okc = steps == [want] and widths == [want]
     steps = ['idx_many[mode]' if x == want else 'other' for x in steps]
     widths = ['idx_many[mode]' if x == want else 'other' for x in widths]
+    # found-but-different is the violation; a stride / width that is not
+    # written in the recognised form is not decided here
+    badc = 'other' in steps or 'other' in widths
     rep.add('S-consumer', 'svd.svd_incomplete', 'row stride %s / block width '
-            '%s' % (steps, widths), 'ok' if okc else 'violation',
+            '%s' % (steps, widths), 'ok' if okc else (
+                'violation' if badc else 'unknown'),
             '' if okc else 'the producer lays the samples of one mode out as '
             'prefixes x (mode index) x idx_many[mode] suffixes: the interface '
             'rows must be taken with stride idx_many[mode] and the values '
             'folded with width idx_many[mode]', line=fsv.node.lineno,
             file=fsv.module.path)
     from .. import rules_formula as _F
-    _F.check_rank_formula(an.prog, rep, 'svd.matrix_skeleton')
+    _F.check_rank_value(an, rep, 'svd.matrix_skeleton')
     rep.floor('F-rank', 1, 'rank formula of the skeleton helper')
     rep.floor('S-ndim', 1, 'lstsq operand')
     rep.floor('S-ret', 2, 'svd_incomplete results')
